@@ -1,0 +1,11 @@
+//go:build verif
+
+package tracing
+
+// VerifOpenSpans returns the number of channel spans currently held
+// (verification hook, only built with -tags verif).
+func (si *SpansIndex) VerifOpenSpans() int {
+	si.spansLk.RLock()
+	defer si.spansLk.RUnlock()
+	return len(si.spans)
+}
